@@ -669,6 +669,7 @@ class Server(base_server.BaseServer):
         """Handle Engine.IO disconnect event."""
         for n in list(self.manager.get_namespaces()).copy():
             self._handle_disconnect(eio_sid, n, reason)
+        self._binary_packet.pop(eio_sid, None)
         if eio_sid in self.environ:
             del self.environ[eio_sid]
 
